@@ -5,7 +5,7 @@ SPEC['C01'] = ('Top-down require returns what a from-scratch build would return'
   ('C01_reuse_needs_all_consistent_partial', 'Local', 'check_deps_inconsistent',
    'partial: a recorded resource dependency whose checker reports Inconsistent ends validation with "inconsistent" (no reuse)'),
 ], 'The full statement is proved for the class spelled out in the hypotheses of C01_incremental_equals_scratch (no target twice per execution, direct require of the generator before reading its product, exact write checkers, total stampers); programs outside that class (repeated targets, transitive generator requires, coarse write checkers) are decided by the correspondence run and the fresh-instance oracle.')
-SPEC['C02'] = ('Top-down build does no unnecessary work', ['Local', 'Local2', 'History', 'ExecInv', 'ExecSession', 'Justify', 'Cert', 'Stable', 'NoBug4', 'Sim', 'Final'], [
+SPEC['C02'] = ('Top-down build does no unnecessary work', ['Local', 'Local2', 'History', 'ExecInv', 'ExecSession', 'Justify', 'Cert', 'Stable', 'NoBug4', 'Sim', 'NoAbort', 'Final', 'Valid', 'Idem', 'C01Witness'], [
   ('C02_at_most_once_per_session', 'Final', 'session_at_most_once',
    'for ALL programs, checkers, fuel, stores satisfying the store invariants J (every store reachable by top-down histories does: C19_no_internal_error_all_histories) and ALL sessions of requires: the session event stream contains no task execution twice (also when the session ends in an abort)'),
   ('C02_executed_only_if_not_yet_consistent', 'ExecSession', 'session_require_execs',
@@ -204,4 +204,23 @@ RAW['C02'] = [
   Forall Sim.is_done (fst ra) -> Forall Sim.is_done (fst rb) ->
   forall x, In x (execs (rev (trace (snd ra)))) -> In x (execs (rev (trace (snd rb))))""",
    'intros gen wck RC OC P sf always HS HWF HC HW HOC. exact (incremental_executes_subset_all RC OC P always gen wck sf HS HWF HC HW HOC).'),
+]
+
+RAW['C02'] += [
+  ('C02_requiring_again_executes_nothing',
+   'idempotence: in the static class, with reflexive checkers (a checker accepts the value it has just stamped), after ANY history, a session of requires followed by the same session again with nothing changed in between: the second session executes NO task, returns the same outputs and leaves every resource as it was. Valid.v: VC (every consistent task has only dependencies its checkers accept in the current state) is a session invariant; Idem.v: from such a state validation succeeds everywhere without executing',
+   TOTAL_BINDERS + """  (forall c env r v, rc_check (RC c) env r v (sf c r v) = Consistent) ->
+  (forall c o, oc_check (OC c) o (oc_stamp (OC c) o) = true) ->
+  forall fuel h ops, hist_below ord fuel h -> roots_below ord fuel ops ->
+  let w := snd (run_history RC OC P always fuel init_world h) in
+  let r1 := run_session RC OC P always fuel (new_session w) ops in
+  let r2 := run_session RC OC P always fuel (new_session (snd r1)) ops in
+  fst r2 = fst r1 /\\ execs (rev (trace (snd r2))) = [] /\\ forall r, get_content (snd r2) r = get_content (snd r1) r""",
+   'intros gen wck ord RC OC P sf always HS HWF HWO HR HRO. exact (second_session_executes_nothing gen wck ord RC OC P sf always HS HWF HWO HR HRO).'),
+  ('C02_idempotence_witness',
+   'non-vacuity: the generator/consumer instance of C01Witness.v has reflexive checkers; its second session executes nothing',
+   """  let r1 := run_session RCx OCx Px 0 50 (new_session (snd (run_history RCx OCx Px 0 50 init_world hx))) opsx in
+  let r2 := run_session RCx OCx Px 0 50 (new_session (snd r1)) opsx in
+  fst r2 = fst r1 /\\ execs (rev (trace (snd r2))) = []""",
+   'exact C02_idempotence_instance.'),
 ]
